@@ -349,6 +349,27 @@ def build() -> Check:
     ck.floor("lock_regions", n_lock_blocks, 8)
     ck.ob("R4.no-callback-under-lock", "package", True, f"{n_lock_blocks} regions holding a threading.Lock scanned")
 
+    # R2 the verdict "every branch is finished or parked" is taken in a done-callback while the resume timer keeps running: a branch whose resume time
+    # falls between the verdict and the raise is resubmitted and runs user code while the invocation answers PENDING. Necessary: the suspension is
+    # raised only once the timer can no longer resubmit (scheduler stopped) and the verdict has been re-evaluated, or both happen under the timer's lock.
+    ex_fn7 = cex.methods.get("execute")
+    if ex_fn7 is None:
+        raise AnalysisError("ConcurrentExecutor.execute not found")
+    withs7 = [w for w in ast.walk(ex_fn7.node) if isinstance(w, ast.With) and any("TimerScheduler" in ast.unparse(i_.context_expr) for i_ in w.items)]
+    raises7 = [r for r in ast.walk(ex_fn7.node) if isinstance(r, ast.Raise) and r.exc is not None and "_suspend_exception" in ast.unparse(r.exc)]
+    ck.floor("suspension_raise_sites", len(raises7), 1)
+    for r in raises7:
+        inside = any(any(r is x for x in ast.walk(w)) for w in withs7)
+        revalidated = False
+        if not inside:
+            # after the scheduler's context: the verdict must be evaluated again before the raise
+            body7 = list(ast.walk(ex_fn7.node))
+            revalidated = any(isinstance(c, ast.Call) and isinstance(c.func, ast.Attribute) and c.func.attr == "should_execution_suspend" and c.lineno < r.lineno
+                              and all(c.lineno > (w.end_lineno or 0) for w in withs7) for c in body7)
+        ck.ob("R2.suspend-verdict-holds-when-raised", fn_construct(ex_fn7), (not inside) and revalidated,
+              "the suspension decided by a done-callback is raised while the resume timer is still running (inside `with TimerScheduler`) and without evaluating the "
+              "verdict again: a branch resubmitted in between runs user code while the invocation answers PENDING", where=f"line {r.lineno}")
+
     # R5 timer -----------------------------------------------------------------------------------------
     ts = prog.cls("concurrency.executor", "TimerScheduler")
     tl = ts.methods.get("_timer_loop")
